@@ -5,6 +5,7 @@ CONSTANTS
   L = 2
   NSet = {2, 3, 4}
   Rich = TRUE
+  Rot = FALSE
 INIT Init
 NEXT Next
 CHECK_DEADLOCK FALSE
